@@ -104,6 +104,33 @@ def op_texts(ops, answers):
     return t
 
 
+def edge_long_files(rng, bs):
+    """deterministic boundary class: the FIRST message has a line ending exactly on the last byte of block
+    zero (for block size bs), followed by (V1) a continuation line longer than a block, (V2) a dated line
+    longer than a block, (V3) short continuation lines, (V4) as V1 at the end of the file without a final
+    newline; then ordinary messages.  Inside the accepted domain at bs and at the default size."""
+    i0 = rng.randrange(0, 2000)
+    tab = {}
+
+    def dated(i, body):
+        l = U.ts(i) + b" " + body + b"\n"
+        tab[l] = U.instant(i)
+        return l
+
+    def head(i, n):
+        return dated(i, b"h" * (n - U.TSLEN - 2))
+    tail = b"".join(dated(i0 + 10 + k, b"tail message") + (b" tail continuation\n" if k % 2 else b"") for k in range(4))
+    long_n = bs + rng.randrange(1, bs + 1)
+    out = []
+    out.append((head(i0, bs) + b" " + b"c" * (long_n - 2) + b"\n" + tail, dict(tab), "edge-long V1 bs=%d" % bs))
+    h = head(i0 + 1, 30)
+    pad = b" " + b"p" * (bs - len(h) - 2) + b"\n"
+    out.append((h + pad + dated(i0 + 2, b"d" * long_n) + tail, dict(tab), "edge-long V2 bs=%d" % bs))
+    out.append((head(i0 + 3, bs) + b" short continuation one\n two\n" + tail, dict(tab), "edge-long V3 bs=%d" % bs))
+    out.append((head(i0 + 4, bs) + b" " + b"e" * (long_n - 2), dict(tab), "edge-long V4 bs=%d" % bs))
+    return out
+
+
 def binary_files(rng, n):
     """(f, table, note) for end-to-end runs: sizes around multiples of the block sizes used"""
     out = []
@@ -508,6 +535,9 @@ def run(ctx):
         files.append((f, tab, "witness " + key, [bs]))
     for f, tab, note in U.nul_heavy_files(rng, 6 if quick else 60):
         files.append((f, tab, note, [64, 128, None] if quick else [64, 65, 127, 128, 4096, 0xFFFFFF, None]))
+    for b_ in ([64, 128] if quick else [64, 65, 127, 128, 4096]):
+        for f, tab, note in edge_long_files(rng, b_):
+            files.append((f, tab, note, [b_, None]))
     for f, tab, note in binary_files(rng, 26 if quick else 400):
         files.append((f, tab, note, rng.sample(BIN_BS, 2 if quick else 4) + [None]))
     for f, tab, note, ext in yearless_streamed(rng, 3 if quick else 30):
@@ -571,7 +601,7 @@ def run(ctx):
              "arbitrary bytes incl. NUL/CR/high bytes, no digit pairs outside timestamps, with/without final newline, line lengths 1, bs-1, bs, bs+1, k*bs+-1) at block "
              "sizes 1..70; per file one reader instance driven by a sequence of 4-14 find_line/find_sysline calls (line starts +-1, 0, |f|-1, |f|, |f|+1, block edges, repeats, "
              "random, backward) then the stage driver; end-to-end: NUL-heavy logs (a short first dated line followed by continuation lines of NUL bytes so that 50-83 % of the "
-             "first 128 bytes are NUL: run directly after the first line, spread over short lines, mixed, placed later in the file as control) at --blocksz 64, 128 and the default;  the s4 binary at --blocksz drawn from 64,65,127,128,4096,0x10000,0xFFFFFF and the default. "
+             "first 128 bytes are NUL: run directly after the first line, spread over short lines, mixed, placed later in the file as control) at --blocksz 64, 128 and the default; edge-long logs (a line of the first message ends on the last byte of block zero, then a line longer than a block / a long dated line / short lines / no final newline) at that block size and the default;  the s4 binary at --blocksz drawn from 64,65,127,128,4096,0x10000,0xFFFFFF and the default. "
              "non-trivial = (block size, file) pairs in which a line starts or ends within +-1 of a block edge or spans >= 2 blocks; distinct by (bs, bytes)",
         samples=[dict(blocksz=cases[i][0], file_hex=cases[i][1].hex(), ops=[list(x) for x in cases[i][3]],
                       impl=repr(answers[i])[:600] if answers else None) for i in (0, 1)] if cases else [],
